@@ -50,6 +50,7 @@ def concrete_world(E, cx, t0, t1, have_H, cache, halfway=False, tol=None):
     w.extra.update({'_dt': None, '_num_evaluations': -100, '_average_dt': 0, '_tree_dt': Fraction(t1) - Fraction(t0), '_last_interval': w.topref,
                     '_size': 'size', '_dtype': 'dtype', '_device': 'device', '_have_A': False, '_levy_area_approximation': 'space-time' if have_H else 'none',
                     '_cache_size': None})
+    w.extra['_tol'] = Fraction(0) if tol is None else Fraction(1, 10 ** tol)
     if tol is None:
         w.extra['$identity_round'] = True
     else:
@@ -93,7 +94,7 @@ def job_symbolic_histories(prefix, K, have_H_opts=(False, True), cache_opts=('no
     def fn(E, rep, tier):
         setup_engine(E)
         rep.bounded_mode = (f'histories of {K} symbolic in-range queries on the one-leaf tree [-1,1] followed by a repetition of the first; '
-                            'every ordering of the end points is explored; tol = 0, non-dyadic; caches none / dict / LRU(1)')
+                            'every ordering of the end points is explored unless the time budget (240 s quick / 600 s thorough per configuration) is reached first - the note of each obligation says which; tol = 0, non-dyadic; caches none / dict / LRU(1)')
         rep.under_contract(*[BI + n for n in ('.BrownianInterval.__call__', '._Interval._loc', '._Interval._loc_inner', '._Interval._split',
                                               '._Interval._split_exact', '._Interval._increment_and_levy_area',
                                               '._Interval._increment_and_space_time_levy_area', '._LRUDict.__setitem__')])
@@ -136,14 +137,16 @@ def job_symbolic_histories(prefix, K, have_H_opts=(False, True), cache_opts=('no
                     elif r != z3.unsat:
                         stats['unknown'] += 1
                 return None
+            budget = 600 if tier == 'thorough' else 240
             try:
-                E.explore(run, tag)
+                E.explore(run, tag, deadline=time.time() + budget, keep=False)
             except PyExc as e:
                 rep.add(f'{tag}/no-exception', 'no-raise', 'refuted', 'pyvc-exec', model={'raised': f'{e.cls}: {e.msg}'})
                 continue
             st = 'discharged' if stats['bad'] == 0 and stats['unknown'] == 0 and stats['paths'] > 0 else ('refuted' if stats['bad'] else 'unknown')
             rep.add(f'{tag}/repeated-query-returns-the-same-terms', 'relational', st, 'pyvc-exec+z3', time.time() - t_start,
-                    model=stats['first_bad'], note=f"{stats['paths']} orderings explored",
+                    model=stats['first_bad'],
+                    note=f"{stats['paths']} orderings explored" + (f"; exploration stopped at the time budget of {budget}s with {E.truncated} decision prefixes unexplored" if E.truncated else '; all orderings explored'),
                     statement='bm(a0,b0) asked again after the other queries returns identical W (and U)')
     return Job(f'symbolic-histories-K{K}-H{"".join(str(int(x)) for x in have_H_opts)}-{"+".join(cache_opts)}', fn)
 
